@@ -50,7 +50,10 @@ def main(replay=None):
     problems = run.prove()
     himpl = V.build_harness("h_pp", "asan" if thorough else "plain")
     drv0 = V.ocaml_driver("pp")
-    drv = ["sh", "-c", "ulimit -s 2000000 2>/dev/null; exec %s" % drv0]
+    # big stack for deep (non tail-recursive) extracted code; wall-clock cap so that one pathological
+    # expansion cannot stall the run (lines a driver process did not answer count as 'model_overflow')
+    drv = ["sh", "-c", "ulimit -s 2000000 2>/dev/null; exec timeout 600 %s" % drv0]
+    drv1 = ["sh", "-c", "ulimit -s 2000000 2>/dev/null; exec timeout 20 %s" % drv0]
 
     cases = []   # dict(kind, main, files{name: bytes}, must_have, must_not, expect_body, features, pin)
 
@@ -85,10 +88,27 @@ def main(replay=None):
 
     lines = ["PP\t%s\t%s" % (V.hx(c["main"]), enc_files(c["files"])) for c in cases]
     rc, impl, err = V.run_lines_parallel([himpl], lines, timeout=3000)
-    rc2, model, err2 = V.run_lines_parallel(drv, lines, timeout=3000)
+    # texts on which the implementation ran into the watchdog get their own, time-limited model process each:
+    # an expansion that is simply huge is discarded (counted), a hang on a small expansion is a violation
+    slow = [i for i, il in enumerate(impl) if il.startswith("TIMEOUT")]
+    fast = [i for i in range(len(lines)) if i not in set(slow)]
+    rc2, mfast, err2 = V.run_lines_parallel(drv, [lines[i] for i in fast], timeout=3000)
+    model = [None] * len(lines)
+    for i, m in zip(fast, mfast):
+        model[i] = m
+    if slow:
+        from concurrent.futures import ThreadPoolExecutor
+        def one(i):
+            try:
+                return V.run_lines(drv1, [lines[i]], timeout=60)[1]
+            except Exception:
+                return []
+        with ThreadPoolExecutor(V.NPROC) as ex:
+            for i, o in zip(slow, ex.map(one, slow)):
+                model[i] = o[0] if o else "MODEL-TIMEOUT"
 
     kinds, feats, samples, distinct = {}, {}, [], set()
-    stats = {"model_error_outcomes": 0, "discarded_outside_grammar": 0, "newline_rule_as_is": 0, "model_overflow": 0}
+    stats = {"model_error_outcomes": 0, "discarded_outside_grammar": 0, "newline_rule_as_is": 0, "model_overflow": 0, "expansion_too_large": 0}
     for c, il, ml in zip(cases, impl, model):
         k0 = c["kind"].split(":")[0]
         kinds[k0] = kinds.get(k0, 0) + 1
@@ -100,6 +120,9 @@ def main(replay=None):
                "expect_body_hex": V.hx(c["expect_body"]) if c["expect_body"] is not None else None,
                "impl": il[:4000], "model": ml[:4000]}
         fi = il.split("\t")
+        if fi[0] == "TIMEOUT" and ml == "MODEL-TIMEOUT":
+            stats["expansion_too_large"] += 1
+            continue
         if fi[0] in ("CRASH", "TIMEOUT", "OOM", "EXCEPTION", "EXIT", "HARNESS-LOST", "BADLINE"):
             what = "preprocessing this text ends in %s" % " ".join(fi[:2])
             if c["kind"] == "recursive":
